@@ -46,6 +46,7 @@ def run(prop, tier, seed, replay=None):
                         continue
                     cfgs.append({"seq": list(seq)})
             cfgs.append({"periods": [100, 500, 1000, 2000, 2100, 3000, 4000, 60000]})
+            cfgs.append({"slow": True})
         shards = shard([json.dumps(x) for x in cfgs], NCPU * 2)
         files = []
         for i, sh in enumerate(shards):
@@ -76,10 +77,10 @@ def run(prop, tier, seed, replay=None):
                 seen.add(key)
                 viol += 1
                 o = json.loads(tl[b["line"] - 1])
-                cfgx = {"seq": o["pre"] + [o["op"]]} if o["mode"] == "seq" else ({"periods": [100, 500, 1000, 2000, 2100, 3000, 4000, 60000]} if o["mode"] == "periods"
+                cfgx = {"slow": True} if o["mode"] == "slow" else {"seq": o["pre"] + [o["op"]]} if o["mode"] == "seq" else ({"periods": [100, 500, 1000, 2000, 2100, 3000, 4000, 60000]} if o["mode"] == "periods"
                                                                                    else {"kind": o["kind"], "init": o["init"], "sched": o["sched"], "unsafe": o["unsafe"]})
                 path = write_replay(prop, "hb_%d" % viol, {"property": prop, "config": cfgx, "defects": b["defects"],
-                                    "observed": {k: o[k] for k in ("live", "running", "rate", "window", "panic", "ctrok", "notified", "periodok")}})
+                                    "observed": {k: o[k] for k in ("live", "running", "rate", "window", "panic", "ctrok", "notified", "periodok", "maxagems", "after")}})
                 print("VIOLATION property=%s replay=%s" % (prop, path))
                 print("  %s -> live %d running %s %s: %s" % (json.dumps(cfgx), o["live"], o["running"], o["panic"], b["defects"]))
         if replay:
